@@ -1,19 +1,20 @@
 #!/bin/sh
-# usage: tools/confirm_seed.sh <PID> <K>    (development aid; confirms a seeded change in a scratch worktree)
-# Confirms that /tmp/seed_<PID>/_seed/mutK.diff applies to /repo HEAD, keeps the suite at the baseline result,
-# makes demoK.py fail and that demoK.py passes on the clean tree.  Writes /tmp/seed_confirm/<PID>_<K>.json.
-PID="$1"; K="$2"
-SRC="/tmp/seed_${PID}/_seed"
-WT="/tmp/confirm_${PID}_${K}"
-OUT="/tmp/seed_confirm/${PID}_${K}.json"
+# usage: tools/confirm_seed.sh <seed source dir> <K> <mut|ref> <tag>    (development aid)
+# Confirms in a scratch worktree of /repo HEAD that <dir>/<mut|ref>K.diff applies, that the suite keeps the baseline
+# result with it, and that <dir>/demoK.py passes on the clean tree and (mut) fails / (ref) passes on the changed tree.
+# Writes /tmp/seed_confirm/<tag>_<K>.json and removes the worktree.
+SRC="$1"; K="$2"; KIND="$3"; TAG="$4"
+WT="/tmp/confirm_${TAG}_${K}"
+OUT="/tmp/seed_confirm/${TAG}_${K}.json"
+mkdir -p /tmp/seed_confirm
 rm -rf "$WT"; git -C /repo worktree prune
 git -C /repo worktree add -q --detach "$WT" HEAD || exit 3
 mkdir -p "$WT/_seed"; cp "$SRC/demo${K}.py" "$WT/_seed/"
 cd "$WT"
-/venv/bin/python -W ignore "_seed/demo${K}.py" >/tmp/seed_confirm/${PID}_${K}.clean.log 2>&1; CLEAN=$?
-if git apply "$SRC/mut${K}.diff" 2>/tmp/seed_confirm/${PID}_${K}.apply.log; then APPLY=0; else APPLY=1; fi
-/venv/bin/python -W ignore "_seed/demo${K}.py" >/tmp/seed_confirm/${PID}_${K}.mut.log 2>&1; MUT=$?
+/venv/bin/python -W ignore "_seed/demo${K}.py" >/tmp/seed_confirm/${TAG}_${K}.clean.log 2>&1; CLEAN=$?
+if git apply "$SRC/${KIND}${K}.diff" 2>/tmp/seed_confirm/${TAG}_${K}.apply.log; then APPLY=0; else APPLY=1; fi
+/venv/bin/python -W ignore "_seed/demo${K}.py" >/tmp/seed_confirm/${TAG}_${K}.mut.log 2>&1; MUT=$?
 SUITE=$(/venv/bin/python -m pytest -q -p no:cacheprovider --timeout=900 --continue-on-collection-errors 2>&1 | tail -1)
 cd /; git -C /repo worktree remove --force "$WT"
-printf '{"property":"%s","k":%s,"applies":%s,"demo_clean_exit":%s,"demo_mutated_exit":%s,"suite":"%s"}\n' "$PID" "$K" "$APPLY" "$CLEAN" "$MUT" "$SUITE" > "$OUT"
+printf '{"tag":"%s","k":%s,"kind":"%s","applies":%s,"demo_clean_exit":%s,"demo_changed_exit":%s,"suite":"%s"}\n' "$TAG" "$K" "$KIND" "$APPLY" "$CLEAN" "$MUT" "$SUITE" > "$OUT"
 cat "$OUT"
